@@ -52,6 +52,30 @@ class _Shape(ast.NodeTransformer):
                 node.left, node.comparators = r, [l]
         return node
 
+    def visit_BoolOp(self, node):
+        self.generic_visit(node)
+        flat = []
+        for v in node.values:
+            if isinstance(v, ast.BoolOp) and type(v.op) is type(node.op):
+                flat.extend(v.values)
+            else:
+                flat.append(v)
+        node.values = flat
+        return node
+
+    def visit_FunctionDef(self, node):
+        self.generic_visit(node)
+        # a bare annotation of a local (`x: T`) does nothing at run time
+        for blk in ast.walk(node):
+            for field in ("body", "orelse", "finalbody"):
+                stmts = getattr(blk, field, None)
+                if isinstance(stmts, list) and any(isinstance(s, ast.AnnAssign) and s.value is None and isinstance(s.target, ast.Name) for s in stmts) and not isinstance(blk, ast.ClassDef):
+                    kept = [s for s in stmts if not (isinstance(s, ast.AnnAssign) and s.value is None and isinstance(s.target, ast.Name))]
+                    stmts[:] = kept or [ast.copy_location(ast.Pass(), stmts[0])]
+        return node
+
+    visit_AsyncFunctionDef = visit_FunctionDef
+
     def visit_If(self, node):
         self.generic_visit(node)
         # 2. positive test when there is an else branch
@@ -312,17 +336,22 @@ def shape_table(root: str) -> dict:
                 continue
             path = os.path.join(dp, f)
             rel = os.path.relpath(path, root)
-            tree = ast.parse(open(path, encoding="utf8").read())
+            text = open(path, encoding="utf8").read()
+            import hashlib
+            sha = hashlib.sha256(text.encode()).hexdigest()[:16]
+            tree = ast.parse(text)
             _Shape().visit(tree)
             names = sorted({x.id for st in tree.body for t in (st.targets if isinstance(st, ast.Assign) else [st.target] if isinstance(st, ast.AnnAssign) else [])
                             for x in ast.walk(t) if isinstance(x, ast.Name)})
-            funcs, nested = {}, {}
+            funcs, nested, params = {}, {}, {}
             for q, fn in _functions(tree):
                 funcs[q] = rw.fingerprints(fn)
+                if "#" in q.split(".")[0] and "." in q or q.count("#") > 1:
+                    params[q] = [a.arg for a in fn.args.args]
                 nd = sorted((n for n in rw.own_walk(fn) if isinstance(n, rw.FUNC)), key=lambda n: (n.lineno, n.col_offset))
                 if nd:
                     nested[q] = [n.name for n in nd]
-            table[rel] = {"module_names": names, "functions": funcs, "nested": nested}
+            table[rel] = {"module_names": names, "functions": funcs, "nested": nested, "params": params, "sha": sha}
     return table
 
 
@@ -344,6 +373,9 @@ def directed_rewrites(tree: ast.Module, relpath: str):
     for q, fn in _functions(tree):
         if q in ref_funcs and sh["nested"].get(q):
             rw.restore_nested_def_names(fn, sh["nested"][q])
+    for q, fn in _functions(tree):
+        if q in sh.get("params", {}):
+            rw.restore_nested_params(fn, sh["params"][q])
 
     def normalise(fn):
         _Shape().visit(fn)
@@ -359,8 +391,15 @@ def directed_rewrites(tree: ast.Module, relpath: str):
         rw.direct_function(fn, ref, known_names, stored, normalise)
 
 
-def canonicalise(tree: ast.Module, relpath: str) -> ast.Module:
+def canonicalise(tree: ast.Module, relpath: str, src: Optional[str] = None) -> ast.Module:
     _Shape().visit(tree)
+    if src is not None:
+        import hashlib
+        from . import canon_rw as rw
+        if rw.shapes().get(relpath, {}).get("sha") == hashlib.sha256(src.encode()).hexdigest()[:16]:
+            # the module is the reference itself, character for character: nothing to restore
+            ast.fix_missing_locations(tree)
+            return tree
     directed_rewrites(tree, relpath)
     restore_local_names(tree, relpath)
     inline_fresh_temporaries(tree, relpath)
